@@ -101,3 +101,70 @@ def run_manager(strategies):
         Actuator.run = orig
         logging.disable(logging.NOTSET)
     return results
+
+
+def raw_frame(n, close_ticks, open0, volume=0):
+    index = pd.date_range("2022-10-8 8:0:0", periods=n, freq="min")
+    df = pd.DataFrame(index=index)
+    for c in ("netAmount0", "netAmount1"):
+        df[c] = [0] * n
+    df["inAmount0"] = [volume] * n
+    df["inAmount1"] = [volume * 10 ** 9] * n
+    df["closeTick"] = [float(t) for t in close_ticks]
+    df["openTick"] = [float(open0)] + [float(t) for t in close_ticks[:-1]]
+    df["lowestTick"] = df["closeTick"]
+    df["highestTick"] = df["closeTick"]
+    df["currentLiquidity"] = [Decimal(10 ** 18)] * n
+    return df
+
+
+class Recorder(Strategy):
+    """scripted strategy: adds liquidity at bar 0, removes half at bar 2, records every snapshot it is handed"""
+    def __init__(self):
+        super().__init__()
+        self.seen = []
+
+    def on_bar(self, snapshot: Snapshot):
+        m = self.broker.markets[KEY]
+        self.seen.append((str(snapshot.timestamp), str(snapshot.prices.to_dict()), str(snapshot.market_status[KEY].to_dict())))
+        if snapshot.row_id == 0:
+            m.add_liquidity_by_tick(TICK - 6000, TICK + 6000)
+        if snapshot.row_id == 2 and len(m.positions) > 0:
+            k = list(m.positions.keys())[0]
+            m.remove_liquidity(k, m.positions[k].liquidity // 2)
+
+
+def run_history(close_ticks, volume=0):
+    """run the Recorder strategy over a history given by its close ticks; returns (per-bar records, frame hash before, after)"""
+    import logging
+    from demeter.core.actuator import Actuator
+    n = len(close_ticks)
+    pool = UniV3Pool(USDC, ETH, 0.05, USDC)
+    market = UniLpMarket(KEY, pool)
+    df = raw_frame(n, close_ticks, close_ticks[0], volume)
+    market.add_statistic_column(df)
+    market.data = df
+    price = df[["price"]].rename(columns={"price": "ETH"})
+    price["USDC"] = Decimal(1)
+    h0 = (_h(df), _h(price))
+    logging.disable(logging.CRITICAL)
+    try:
+        a = Actuator()
+        a.broker.add_market(market)
+        a.broker.set_balance(USDC, 2000)
+        a.broker.set_balance(ETH, 1)
+        st = Recorder()
+        a.strategy = st
+        a.set_price(price, USDC)
+        a.run(False)
+    finally:
+        logging.disable(logging.NOTSET)
+    per_bar = []
+    for i, acc in enumerate(a.account_status):
+        acts = [str(x) for x in a.actions if x.timestamp == acc.timestamp]
+        per_bar.append((str(acc.timestamp), str(acc.net_value), str(sorted((t.name, str(b)) for t, b in acc.asset_balances.items())), tuple(acts), st.seen[i]))
+    return per_bar, h0, (_h(df), _h(price))
+
+
+def _h(df):
+    return int(pd.util.hash_pandas_object(df.astype(str), index=True).sum())
